@@ -74,6 +74,18 @@ def fb_scenarios(rng, n, first_id):
             # the channel is closed and created again on the same file (restart), or just left to flush
             steps.append({"a": "reopen" if rng.random() < 0.4 else "wait", "lines": []})
         out.append({"id": first_id + i, "level": "fb", "maxsize": ms, "steps": steps})
+    # more than the 500 KiB buffer within one flush interval (the size-triggered flush), then a trickle that only the
+    # timer can flush, then nothing
+    for k, (ms, nburst, size) in enumerate([(4 << 20, 720, 900), (1 << 20, 700, 1000)]):
+        nid, steps = 1, []
+        steps.append({"a": "write", "lines": [{"id": nid + j, "len": size} for j in range(nburst)]})
+        nid += nburst
+        steps.append({"a": "write", "lines": [{"id": nid + j, "len": 200} for j in range(5)]})
+        nid += 5
+        steps.append({"a": "wait", "lines": []})
+        steps.append({"a": "write", "lines": [{"id": nid + j, "len": 300} for j in range(3)]})
+        steps.append({"a": "wait", "lines": []})
+        out.append({"id": first_id + n + 1 + k, "level": "fb", "maxsize": ms, "steps": steps})
     out.append({"id": first_id + n, "level": "fb-unwritable", "maxsize": 1024,
                 "steps": [{"a": "write", "lines": [{"id": 1, "len": 100}, {"id": 2, "len": 100}]}]})
     return out
